@@ -63,6 +63,7 @@ impl Increment {
 //@ sig fn render_to(&self, writer: &mut Sink, runtime: &dyn Runtime) -> (r: Result<()>)
 //@ spec
     requires !old(writer).failed@,
+        runtime.writable(),                                                            // [C02:scope_has_assignment_and_counter_layers]
     ensures
         sink_safe(*old(writer), *final(writer), r),                                               // [C10:increment_failed_sink_is_error]
         r is Ok ==> final(writer).log@ == old(writer).log@.push(Ev::Write("{val}"@)),             // [C10:increment_writes_exactly_once]
@@ -82,6 +83,7 @@ impl Decrement {
 //@ sig fn render_to(&self, writer: &mut Sink, runtime: &dyn Runtime) -> (r: Result<()>)
 //@ spec
     requires !old(writer).failed@,
+        runtime.writable(),                                                            // [C02:scope_has_assignment_and_counter_layers]
     ensures
         sink_safe(*old(writer), *final(writer), r),                                               // [C10:decrement_failed_sink_is_error]
         r is Ok ==> final(writer).log@ == old(writer).log@.push(Ev::Write("{val}"@)),             // [C10:decrement_writes_exactly_once]
@@ -107,6 +109,7 @@ impl Assign {
 //@ spec
     requires
         !old(_writer).failed@,
+        runtime.writable(),                                                            // [C02:scope_has_assignment_and_counter_layers]
         // the only global write this tag is entitled to: its destination name, bound to what its source denotes
         forall|v: VId| self.src.denotes(runtime) == Some(v) ==> #[trigger] runtime.may_set_global(self.dst, v),
     ensures
@@ -129,6 +132,7 @@ impl Template {
     #[verifier::external_body]
     pub fn render_to(&self, writer: &mut Sink, runtime: &dyn Runtime) -> (r: Result<()>)
         requires !old(writer).failed@,                                                      // [C10:no_write_after_failure]
+                 runtime.writable(),
         ensures renders_as_child(self.rid(), runtime.ident(), *old(writer), *final(writer), r)
     { unimplemented!() }
 }
@@ -143,6 +147,7 @@ impl Capture {
 //@ spec
     requires
         !old(_writer).failed@,
+        runtime.writable(),                                                            // [C02:scope_has_assignment_and_counter_layers]
         // the only global write capture is entitled to: its own name (the value is pinned by the ghost assert below)
         forall|v: VId| #[trigger] runtime.may_set_global(self.id, v),
     ensures
@@ -175,6 +180,7 @@ impl IfChanged {
 //@ sig fn render_to(&self, writer: &mut Sink, runtime: &dyn Runtime) -> (r: Result<()>)
 //@ spec
     requires !old(writer).failed@,
+        runtime.writable(),                                                            // [C02:scope_has_assignment_and_counter_layers]
     ensures
         sink_safe(*old(writer), *final(writer), r),                                                // [C10:ifchanged_failed_sink_is_error]
         // the body is rendered into a private buffer; the output receives at most one write of that text
@@ -235,6 +241,7 @@ impl Cycle {
 //@ sig fn render_to(&self, writer: &mut Sink, runtime: &dyn Runtime) -> (r: Result<()>)
 //@ spec
     requires !old(writer).failed@,
+        runtime.writable(),                                                            // [C02:scope_has_assignment_and_counter_layers]
     ensures
         sink_safe(*old(writer), *final(writer), r),                                               // [C10:cycle_failed_sink_is_error]
         r is Ok ==> final(writer).log@ == old(writer).log@.push(Ev::Write("{}"@)),                // [C10:cycle_writes_exactly_once]
